@@ -1,4 +1,4 @@
-HOOK_COMMITS = ["bf4faed"]
+HOOK_COMMITS = ["bf4faed", "d2e499a"]
 
 _PENDING = "check not built yet in this round (model and theorems in progress, DESIGN.md section 13); the property itself is within reach of the technique"
 NOT_APPLICABLE = [{"property_id": "C%02d" % i, "reason": _PENDING} for i in range(1, 21)]
@@ -7,6 +7,11 @@ _NOTE = ("Trusted: Coq 8.16.1 kernel + vm_compute; the Go harness (generators, p
          "differential evaluation on generated inputs, not by proof; ")
 
 TEXT = {
+    "C06": {
+        "level": "Well-formedness is a Gallina predicate (payload kind vs type recursively, tuple/object shape, NFC strings, one marker layer, mark-free duplicate-free correctly-bucketed set members, refinement kind vs type, no optional-attribute annotations). Theorems: primitive constructors and every result of Not/And/Or/LessThan/GreaterThan are well-formed for all operands; tuple/list constructors never invent types. On every run each value returned by ~40 API entry points is judged by the hook, a public-API walk and the model predicate, and the three verdicts must agree.",
+        "note": _NOTE + "for most API families the guarantee is the monitor (hook + public walk + model predicate on every returned value), not a theorem (partial).",
+        "technique": "Coq well-formedness predicate + preservation lemmas + three-way monitor (hook, public API, vm_compute) on every returned value",
+    },
     "C05": {
         "level": "The refinement builder, Value.Range, Includes and SafeKnownPrefix are modelled in Gallina; for all call sequences: the original value and marks are never changed, the dynamic value ignores refinement, a known value is returned unchanged or rejected, nullness contradictions and crossing length bounds are rejected and the tighter length bound is kept; the safe prefix is proved a byte prefix of the normalised form of every extension relative to two laws of x/text that are tested on every run; the delimiter table is regenerated from the source and its ASCII obligation re-proved. Every generated sequence is compared with the implementation (result value, range accessors, Includes) and checked against an independent interval/prefix model.",
         "note": _NOTE + "Unicode normalisation and segmentation are oracles (answers shipped with cases); numeric-bound faithfulness is oracle-checked, not a theorem (partial).",
